@@ -315,3 +315,87 @@ func (s *Solver) model() Model {
 	}
 	return m
 }
+
+// CheckOneShot decides the conjunction in a fresh, non-incremental solver
+// process (assert + check-sat): the solver then chooses its bit-blasting
+// tactic, which decides bounded-model-checking style queries that the
+// incremental core does not finish.
+func (s *Solver) CheckOneShot(lits []Lit, timeoutMs int) (Verdict, Model) {
+	t0 := time.Now()
+	defer func() { s.Stats.Seconds += time.Since(t0).Seconds() }()
+	var sb strings.Builder
+	sb.WriteString("(set-option :produce-models true)\n")
+	if strings.HasPrefix(s.argv[0], "z3") {
+		fmt.Fprintf(&sb, "(set-option :timeout %d)\n", timeoutMs)
+	} else {
+		fmt.Fprintf(&sb, "(set-option :tlimit-per %d)\n", timeoutMs)
+	}
+	sb.WriteString("(set-logic QF_BV)\n")
+	nvars := len(s.tt.vars)
+	for k := 0; k < nvars; k++ {
+		v := s.tt.vars[k]
+		fmt.Fprintf(&sb, "(declare-const %s %s)\n", v.name, sortOf(int(v.w)))
+	}
+	seen := map[*Term]bool{}
+	var def func(t *Term)
+	def = func(t *Term) {
+		if t == nil || t.op == OpConst || t.op == OpVar || seen[t] {
+			return
+		}
+		seen[t] = true
+		def(t.a)
+		def(t.b)
+		def(t.c)
+		fmt.Fprintf(&sb, "(define-fun t%d () %s %s)\n", t.id, sortOf(int(t.w)), t.body())
+	}
+	for _, l := range lits {
+		if l.T.op == OpConst {
+			if (l.T.val != 0) == l.Neg {
+				return Unsat, nil
+			}
+			continue
+		}
+		def(l.T)
+		if l.Neg {
+			fmt.Fprintf(&sb, "(assert (not %s))\n", l.T.ref())
+		} else {
+			fmt.Fprintf(&sb, "(assert %s)\n", l.T.ref())
+		}
+	}
+	sb.WriteString("(check-sat)\n")
+	argv := s.argv
+	if len(argv) > 0 && strings.HasPrefix(argv[0], "cvc5") {
+		argv = []string{"cvc5", "--produce-models", "--lang=smt2", "--incremental"}
+	}
+	o := &Solver{argv: argv, tt: s.tt, TimeoutMs: timeoutMs}
+	o.cmd = exec.Command(argv[0], argv[1:]...)
+	in, err := o.cmd.StdinPipe()
+	if err != nil {
+		panic(err)
+	}
+	out, err := o.cmd.StdoutPipe()
+	if err != nil {
+		panic(err)
+	}
+	if err := o.cmd.Start(); err != nil {
+		panic(fmt.Sprintf("cannot start solver %v: %v", argv, err))
+	}
+	o.in, o.out = in, bufio.NewReaderSize(out, 1<<16)
+	defer o.Close()
+	if s.Log != nil {
+		io.WriteString(s.Log, "; ---- one-shot ----\n"+sb.String())
+	}
+	o.send(sb.String())
+	s.Stats.Queries++
+	switch o.readLine() {
+	case "sat":
+		s.Stats.Sat++
+		o.declared = nvars
+		return Sat, o.model()
+	case "unsat":
+		s.Stats.Unsat++
+		return Unsat, nil
+	}
+	s.Stats.Unknown++
+	return Unknown, nil
+}
